@@ -502,6 +502,14 @@ def fail_release(repo, res):
                         res.fail(k, f"rename `{ast.unparse(c)[:80]}` does not move '<module>.c' to "
                                  "'<module>.c.failed' (source or target wrong): lock stays in place",
                                  m.line(c))
+        # wrappers: a call to a helper all of whose normal paths perform the rename counts as the rename (Min et al.)
+        for c in calls_in(f.node):
+            h = m.funcs.get(call_name(c) or "")
+            if h is None or h is f:
+                continue
+            if _helper_releases(h, c, sl):
+                res.functions.add(h.key)
+                renames.extend(cfg.stmt_nodes_containing(c))
         k = f"{f.key}:release-on-failure"
         res.ob(k)
         if not renames:
@@ -549,6 +557,42 @@ def fail_release(repo, res):
         for r in renames:
             if cfg.exit.id in cfg.reachable(r.id):
                 res.fail(k3, "after renaming the lock to .failed the function can still return normally", m.line(r.ast))
+
+
+def _helper_releases(h, call, caller_sl) -> bool:
+    """`call` invokes helper `h`, every normal path of which renames '<module>.c' (built from a parameter that the call
+    binds to the module name) to '.c.failed'."""
+    hs = Slicer(h.node)
+    hcfg = CFG(h.node, PURE)
+    params = [a.arg for a in h.node.args.args]
+    bound = {}
+    for i, a in enumerate(call.args):
+        if i < len(params):
+            bound[params[i]] = a
+    for kw_ in call.keywords:
+        if kw_.arg:
+            bound[kw_.arg] = kw_.value
+    name_params = {p_ for p_, a in bound.items() if "module_name" in caller_sl.names(a)}
+    nodes = set()
+    for c in calls_in(h.node):
+        nm = call_name(c) or ""
+        if nm.split(".")[-1] not in ("replace", "rename", "move"):
+            continue
+        args = list(c.args)
+        if isinstance(c.func, ast.Attribute) and not nm.startswith(("os.", "shutil.")):
+            args = [c.func.value] + args
+        if len(args) < 2:
+            continue
+        src, dst = args[0], args[1]
+        consts = {x for x in hs.constants(src) if isinstance(x, str)}
+        direct = {n.value for n in ast.walk(src) if isinstance(n, ast.Constant) and isinstance(n.value, str)}
+        src_ok = ".c" in consts and not any(("cached" in x or "failed" in x) for x in direct) and bool(name_params & hs.names(src))
+        dst_ok = any(isinstance(x, str) and x.endswith(".failed") for x in hs.constants(dst))
+        if src_ok and dst_ok:
+            nodes |= {n.id for n in hcfg.stmt_nodes_containing(c)}
+    if not nodes:
+        return False
+    return hcfg.exit.id not in hcfg.reachable(hcfg.entry.id, blocked=nodes)
 
 
 def _path_avoiding(cfg, start, goal, blocked, build_node):
